@@ -25,6 +25,7 @@ import (
 	"runtime"
 	"strings"
 	"sync"
+	"sync/atomic"
 	"time"
 
 	xmpp "gosrc.io/xmpp"
@@ -293,6 +294,12 @@ func (c18) Gen(r *rand.Rand, tier string) []interface{} {
 	add(&c18In{Kind: "e2e", End: "disconnect", IvUs: -1000})
 	// WebSocket: the application ends the session while a keep-alive ping awaits its pong
 	add(&c18In{Kind: "ws", End: "discping", IvUs: 20000})
+	// WebSocket: the peer goes silent without closing (a relay stops forwarding): only the keep-alive can
+	// notice, after the library's 5 s ping timeout
+	add(&c18In{Kind: "ws", End: "silent", IvUs: 10000, Ticks: 8})
+	if thorough {
+		add(&c18In{Kind: "ws", End: "silent", IvUs: 50000, Ticks: 4})
+	}
 	// WebSocket transport: the TCP connection underneath is cut
 	nws := 1
 	if thorough {
@@ -1167,6 +1174,70 @@ func (l *kaKeepListener) cut(fin bool) {
 	}
 }
 
+// kaRelay: a TCP path between client and server that can go SILENT: both connections stay open, nothing
+// is forwarded any more (a black-holed route, a peer that froze): reads just block, no error on either side.
+type kaRelay struct {
+	ln     net.Listener
+	frozen int32
+	mu     sync.Mutex
+	conns  []net.Conn
+	stop   chan struct{}
+}
+
+func newKaRelay(target string) (*kaRelay, error) {
+	ln, err := listenLoopback()
+	if err != nil {
+		return nil, err
+	}
+	r := &kaRelay{ln: ln, stop: make(chan struct{})}
+	go func() {
+		for {
+			c, err := ln.Accept()
+			if err != nil {
+				return
+			}
+			s, err := net.Dial("tcp", target)
+			if err != nil {
+				c.Close()
+				continue
+			}
+			r.mu.Lock()
+			r.conns = append(r.conns, c, s)
+			r.mu.Unlock()
+			go r.pipe(c, s)
+			go r.pipe(s, c)
+		}
+	}()
+	return r, nil
+}
+func (r *kaRelay) pipe(src, dst net.Conn) {
+	buf := make([]byte, 32768)
+	for {
+		n, err := src.Read(buf)
+		if atomic.LoadInt32(&r.frozen) == 1 {
+			<-r.stop
+			return
+		}
+		if n > 0 {
+			dst.Write(buf[:n])
+		}
+		if err != nil {
+			dst.Close()
+			return
+		}
+	}
+}
+func (r *kaRelay) freeze() { atomic.StoreInt32(&r.frozen, 1) }
+func (r *kaRelay) close() {
+	close(r.stop)
+	r.ln.Close()
+	r.mu.Lock()
+	for _, c := range r.conns {
+		c.Close()
+	}
+	r.mu.Unlock()
+}
+
 func runKeepaliveWS(in *c18In, attempt int) (Sx, *c18Obs) {
 	iv := time.Duration(in.IvUs) * time.Microsecond
 	setupErr := func(msg string) (Sx, *c18Obs) {
@@ -1209,7 +1280,16 @@ func runKeepaliveWS(in *c18In, attempt int) (Sx, *c18Obs) {
 	go hs.Serve(ln)
 	defer hs.Close()
 
-	inner := xmpp.NewClientTransport(xmpp.TransportConfiguration{Address: "ws://" + base.Addr().String() + "/ws", Domain: "localhost", ConnectTimeout: 2})
+	addr := base.Addr().String()
+	var relay *kaRelay
+	if in.End == "silent" {
+		if relay, err = newKaRelay(addr); err != nil {
+			return setupErr("relay: " + err.Error())
+		}
+		defer relay.close()
+		addr = relay.ln.Addr().String()
+	}
+	inner := xmpp.NewClientTransport(xmpp.TransportConfiguration{Address: "ws://" + addr + "/ws", Domain: "localhost", ConnectTimeout: 2})
 	if _, err := inner.Connect(); err != nil {
 		return setupErr("ws connect: " + err.Error())
 	}
@@ -1258,11 +1338,15 @@ func runKeepaliveWS(in *c18In, attempt int) (Sx, *c18Obs) {
 	if in.End == "discping" {
 		go client.Disconnect()
 		time.AfterFunc(150*time.Millisecond, func() { close(unmute) })
+	} else if in.End == "silent" {
+		// the peer goes silent without closing: only the keep-alive can notice (no pong within the
+		// library's 5 s pingTimeout)
+		relay.freeze()
 	} else {
 		ln.cut(in.Fin)
 	}
-	// pingTimeout in the library is 5 s; a cut connection should be noticed much faster
-	kaWaitDone(done, 8*time.Second)
+	// pingTimeout in the library is 5 s; a cut connection is noticed much faster
+	kaWaitDone(done, 9*time.Second)
 	kaWaitDone(recvDone, 2*time.Second)
 	kaSettle(iv)
 	evs := rec.snapshot()
@@ -1312,8 +1396,12 @@ func (c18) Input(inp interface{}) Sx {
 			end = 1
 		}
 	} else if in.Kind == "ws" {
-		// a transport whose Ping starts failing (which one: observed), with a receive loop blocked on it
-		term, failAt, end = 1, o.NSucc+1, 1
+		// a receive loop blocked on the transport; whether a Ping failed before the loop saw quit closed
+		// (the read path may notice a cut first), and which one, is observed
+		end = 1
+		if len(o.PingUs) > o.NSucc {
+			term, failAt = 1, o.NSucc+1
+		}
 	} else if in.Kind == "e2e" {
 		// the server stops reading when it resets the connection or has answered the client's closing tag
 		mode, lossy, end = 1, in.End != "srvclose", 2
@@ -1430,11 +1518,23 @@ func (c18) Oracle(inp interface{}, obs Sx) (string, string) {
 			}
 			break
 		}
-		if firstFail < 0 {
-			return "TCP connection under the WebSocket cut, but no keep-alive failed within 8 s", "failure-not-reached"
+		if in.End == "silent" && firstFail < 0 {
+			return "the peer went silent (nothing forwarded, nothing closed) but no keep-alive failed within 9 s: nobody else can notice", "failure-not-reached"
+		}
+		// whichever path notices first (the reader of the transport or the failing keep-alive): the loss
+		// is reported, once, and the keep-alive loop is over
+		what := fmt.Sprintf("TCP connection under the WebSocket cut (fin=%v)", in.Fin)
+		if in.End == "silent" {
+			what = "peer silent, the keep-alive ping timed out and Close was called"
 		}
 		if o.ErrCalls < 1 || o.DiscEvents < 1 {
-			return fmt.Sprintf("TCP connection under the WebSocket cut (fin=%v): the keep-alive failed and Close was called, but the receive loop stays blocked: %d error callbacks, %d Disconnected events after 10 s", in.Fin, o.ErrCalls, o.DiscEvents), "loss-not-reported"
+			return fmt.Sprintf("%s, but the loss is not reported: %d error callbacks, %d Disconnected events after 10 s", what, o.ErrCalls, o.DiscEvents), "loss-not-reported"
+		}
+		if o.ErrCalls != 1 || o.DiscEvents != 1 {
+			return fmt.Sprintf("%s: the loss was reported %d/%d times (error callbacks/Disconnected events)", what, o.ErrCalls, o.DiscEvents), "loss-reported-twice"
+		}
+		if firstRet < 0 {
+			return what + ": the keep-alive loop is still running", "quit-no-return"
 		}
 		if in.tooFewPings() {
 			return fmt.Sprintf("%d keep-alives in %d intervals (3 attempts)", pings, in.nominal()), "too-few-pings"
